@@ -299,6 +299,9 @@ def run(ctx):
     ctx.rule("R10.z", "cancellation stops a superseded reference: no async function of param catches CancelledError / BaseException / everything and carries on (the handler ends with raise, return "
                       "or break)", floor=1)
     cancellation_is_not_swallowed(ctx, "R10.z")
+    ctx.rule("R10.b2", "each evaluation of a bound coroutine function awaits the coroutine it created: the async wrapper(s) of reactive.bind start no task of their own (ensure_future / create_task "
+                       "/ shield / gather) that evaluations could share", floor=1)
+    bound_coroutine_awaits_its_own_evaluation(ctx, "R10.b2")
 
     # ------------------------------------------------------------- R10.j
     from checks.shared import syncing_set_replaced
@@ -394,3 +397,25 @@ def cancellation_is_not_swallowed(ctx, rule):
                  input="a sync-generator reference superseded while next() runs in the worker thread: history ['first', 'plain', 'stale']")
     else:
         ctx.ok(rule, ctx.repo.func("param._utils._to_async_gen"), None, "none of the %d async functions of param catches task cancellation without leaving (matcher checked on an embedded example)" % n)
+
+
+def bound_coroutine_awaits_its_own_evaluation(ctx, rule):
+    """reactive.bind, coroutine branch: each evaluation of a bound coroutine function awaits the coroutine it has just created.
+    An evaluation that awaits a task SHARED with another evaluation (a table of in-flight tasks, asyncio.ensure_future /
+    create_task inside the wrapper) is cancelled together with it: cancelling the superseded evaluation kills the newest
+    one, whose result is then never applied."""
+    f = ctx.repo.func("param.reactive.bind")
+    nested = [n for n in ast.walk(f.node) if isinstance(n, ast.AsyncFunctionDef)]
+    ctx.require(nested, "bind no longer defines an async wrapper for coroutine functions")
+    bad = []
+    for n in nested:
+        for c in ast.walk(n):
+            if isinstance(c, ast.Call) and norm(c.func).rsplit(".", 1)[-1] in ("ensure_future", "create_task", "shield", "gather", "wait"):
+                bad.append((n, c))
+    if bad:
+        n, c = bad[0]
+        ctx.fail(rule, f, c, "the coroutine wrapper of bind (`%s`) hands its evaluation to a task of its own (`%s`): evaluations that share such a task are cancelled together -- when the superseded "
+                             "evaluation of a reference is cancelled, the newest one with the same arguments dies with it and the latest assignment's result is never applied" % (n.name, norm(c)[:60]),
+                 key=f.qualname + "::shared-evaluation-task", input="t.v = bind(async_fn, s.param.x); t.v = <the same reference again> while the first evaluation is suspended -> t.v keeps its old value")
+    else:
+        ctx.ok(rule, f, nested[0], "the coroutine wrapper(s) of bind await the coroutine they create themselves (%d wrapper(s))" % len(nested))
